@@ -5,7 +5,7 @@ db, k, rewriting = sys.argv[1], int(sys.argv[2]), sys.argv[3] == "1"
 import mcfg  # noqa: E402
 from monkeytype import cli  # noqa: E402
 
-mcfg.reset(db=db, k=k)
+mcfg.reset(db=db, k=k, limit=int(sys.argv[4]) if len(sys.argv) > 4 else None)
 rc_all = 0
 for i, mod in enumerate(["vfx.shapes", "vfx.shapes2"]):
     if i:
